@@ -45,6 +45,8 @@ class Emitter:
         self.externs = {}
         self.ti_ids = {}
         self.out = []
+        self.extra_roots = []
+        self.ctor_funcs = []
 
     # ------------------------------------------------------------ types
     def resolve(self, t):
@@ -179,6 +181,7 @@ class Emitter:
         work = [n for n, f in m.funcs.items() if f.blocks is not None and self.roots_re.search(n)]
         if not work: raise IRError('no root functions match')
         self.roots = list(work)
+        work += list(self.extra_roots)
         seenf = set(); seeng = set(); self.addr_taken = set()
         while work:
             n = work.pop()
@@ -201,6 +204,45 @@ class Emitter:
             else:
                 raise IRError('reference to unknown symbol @' + n)
         self.rfuncs = sorted(seenf); self.rglobals = sorted(seeng)
+        return seenf, seeng
+
+    def select_ctors(self):
+        """static initialisers (llvm.global_ctors) that initialise a reachable global; they become roots"""
+        m = self.m
+        gc = m.globals.get('llvm.global_ctors')
+        self.ctor_funcs = []
+        if gc is None or gc.init is None or gc.init[0] != 'agg': return False
+        changed = False
+        for et, ev in gc.init[1]:
+            fn = set(); self.val_refs(ev[1][1][1], fn)
+            data = set(); self.val_refs(ev[1][2][1], data)
+            if not fn: continue
+            (f,) = fn
+            want = False
+            if data:
+                want = bool(data & set(self.rglobals))
+            else:
+                refs = set()
+                fo = m.funcs.get(f)
+                todo = [fo] if fo is not None and fo.blocks is not None else []
+                seen = set()
+                while todo:
+                    x = todo.pop()
+                    if x.name in seen: continue
+                    seen.add(x.name)
+                    acc = set()
+                    for _, ins in x.blocks:
+                        for I in ins: self.instr_refs(I, acc)
+                    refs |= acc
+                    for a in acc:
+                        y = m.funcs.get(a)
+                        if y is not None and y.blocks is not None and a.startswith('__cxx_global_var_init'): todo.append(y)
+                refs = {r for r in refs if r in m.globals and not m.globals[r].const and r not in ('_ZStL8__ioinit', '__dso_handle')}
+                want = bool(refs & set(self.rglobals))
+            if want:
+                self.ctor_funcs.append(f)
+                if f not in self.extra_roots: self.extra_roots.append(f); changed = True
+        return changed
 
     def layout(self):
         m = self.m
@@ -371,7 +413,12 @@ class Emitter:
 
     # ------------------------------------------------------------ emit module
     def emit(self):
-        self.reach(); self.layout()
+        self.reach()
+        for _ in range(8):
+            if not self.select_ctors(): break
+            self.reach()
+        self.select_ctors()
+        self.layout()
         m = self.m
         # typeinfo ids
         for n in self.rglobals:
@@ -440,6 +487,10 @@ class Emitter:
             if not n.startswith('verif_'): o.append(proto)
         o += protos
         o += bodies
+        o.append('void ir_global_ctors(void) {')
+        for f in self.ctor_funcs:
+            o.append('  %s();' % self.cname(f))
+        o.append('}')
         return '\n'.join(o) + '\n'
 
     def taken(self):
